@@ -110,12 +110,16 @@ fn parse_literal(literal: Pair) -> Value {
 
             Value::scalar(trim_quotes.to_owned())
         }
-        Rule::IntegerLiteral => Value::scalar(
-            literal
-                .as_str()
-                .parse::<i64>()
-                .expect("Grammar ensures matches are parseable as integers."),
-        ),
+        Rule::IntegerLiteral => match literal.as_str().parse::<i64>() {
+            Ok(integer) => Value::scalar(integer),
+            // outside the 64-bit range: carry the number as a float
+            Err(_) => Value::scalar(
+                literal
+                    .as_str()
+                    .parse::<f64>()
+                    .expect("Grammar ensures matches are parseable as numbers."),
+            ),
+        },
         Rule::FloatLiteral => Value::scalar(
             literal
                 .as_str()
